@@ -32,7 +32,13 @@ fn main() {
     rep.push("wall_ms", vutil::util::J::i(t0.elapsed().as_millis() as u64));
     let text = rep.render();
     match arg(&args, "--out") {
-        Some(p) => std::fs::write(p, text).expect("write report"),
+        Some(p) => {
+            // atomic: several interpreter seeds of one process may finish at the same time
+            let nonce = std::time::SystemTime::now().duration_since(std::time::UNIX_EPOCH).map(|d| d.subsec_nanos()).unwrap_or(0) as usize ^ (&text as *const String as usize);
+            let tmp = format!("{}.{:x}.tmp", p, nonce);
+            std::fs::write(&tmp, text).expect("write report");
+            std::fs::rename(&tmp, p).expect("rename report");
+        }
         None => println!("{}", text),
     }
 }
